@@ -190,7 +190,7 @@ _LEADING_COMBINERS = {"torch.Tensor", "torch.tensor", "torch.as_tensor", "torch.
 _STACKERS = {"np.stack", "torch.stack", "numpy.stack"}
 
 
-def _ippo_masks(ck: Check, repo: Repo) -> None:
+def _ippo_masks(ck: Check, repo: Repo, rule: str = "C14.7") -> None:
     fn = repo.fn("agilerl.algorithms.ippo", "IPPO.extract_action_masks")
     # (a) collection: for <agent>, <info> in infos.items(): <box>[self.get_homo_id(<agent>)].append(...)
     # the collection loop visits the agents (in self.agent_ids order: C15.9) and reads each agent's own info entry
@@ -207,7 +207,7 @@ def _ippo_masks(ck: Check, repo: Repo) -> None:
         for c in calls_in(lp, nested=True):
             if last_attr(c) == "append" and isinstance(c.func.value, ast.Subscript) and isinstance(c.func.value.value, ast.Name) and dotted(c.func.value.slice) in hid:
                 okc, box = True, c.func.value.value.id
-    ck.ob("C14.7", fn, loops[0] if loops else fn.node, okc, "IPPO.extract_action_masks: one mask per agent, read from that agent's own info entry, is appended to its policy group's list",
+    ck.ob(rule, fn, loops[0] if loops else fn.node, okc, "IPPO.extract_action_masks: one mask per agent, read from that agent's own info entry, is appended to its policy group's list",
           construct="IPPO.extract_action_masks: collection loop")
     # (b) combination: <box>[g] = <combiner>(<box>[g]) on the leading axis
     n = 0
@@ -223,14 +223,14 @@ def _ippo_masks(ck: Check, repo: Repo) -> None:
         nm = call_name(c)
         axis = get_kw(c, "axis") or get_kw(c, "dim") or (c.args[1] if len(c.args) > 1 and nm in _STACKERS else None)
         ok = nm in _LEADING_COMBINERS or (nm in _STACKERS and (axis is None or const_value(axis) == 0))
-        ck.ob("C14.7", fn, c, ok, "IPPO.extract_action_masks: the group's masks are combined on a new leading axis (agent-major)",
+        ck.ob(rule, fn, c, ok, "IPPO.extract_action_masks: the group's masks are combined on a new leading axis (agent-major)",
               detail=f"combined by `{short(c, 70)}`: with several environments the agent axis is not the leading one, while observations and logits of the group are "
                      "concatenated agent-major; mask.view(logits.shape) then gives a row the mask of another (agent, environment) pair",
               construct="IPPO.extract_action_masks: combination of the group's masks")
-    ck.floor("C14.7", n, 1, "combination of a policy group's masks", fn=fn)
+    ck.floor(rule, n, 1, "combination of a policy group's masks", fn=fn)
     # the consumer reshapes by view(): it relies on identical element order
     ap = repo.fn("agilerl.networks.distributions", "EvolvableDistribution.apply_mask")
-    ck.ob("C14.7", ap, ap.node, has(ap.node, "$_.view($_.shape)"), "apply_mask reinterprets the mask with the logits' shape by view(): element order must already agree",
+    ck.ob(rule, ap, ap.node, has(ap.node, "$_.view($_.shape)"), "apply_mask reinterprets the mask with the logits' shape by view(): element order must already agree",
           construct="apply_mask view")
 
 
